@@ -45,7 +45,16 @@ Cases == { [Base EXCEPT !.alg = a, !.sans = s] : a \in Algs, s \in Sans }
          \cup { [Base EXCEPT !.clientAuth = ca, !.serverAuth = sa, !.sans = s] : ca \in Bool, sa \in Bool, s \in {<<>>, <<"dns", "ip4">>} }
          \cup { [Base EXCEPT !.country = c, !.names = np, !.dir = d] : c \in {"nonprintable-gt", "nonascii"}, np \in NamePairs, d \in Dirs }
          \cup { [Base EXCEPT !.alg = a, !.sans = <<"nonascii">>, !.dir = d] : a \in Algs, d \in Dirs }
+(* length sweeps: an offending (non-ASCII, two-octet) character after k ASCII letters, so that it sits at and across every *)
+(* byte offset up to 140 of the option value that the tool has to report                                                  *)
+LongBad(k) == "long-nonascii-" \o ToString(k)
+LongOk(k) == "long-printable-" \o ToString(k)
+SweepCases == { [Base EXCEPT !.country = LongBad(k), !.grp = "cli-sweep"] : k \in 0..140 }
+              \cup { [Base EXCEPT !.sans = <<LongBad(k)>>, !.grp = "cli-sweep"] : k \in 0..140 }
+              \cup { [Base EXCEPT !.cn = LongBad(k), !.org = LongBad(k + 1), !.grp = "cli-sweep"] : k \in {0, 31, 47, 48, 63, 64, 127, 128, 255, 256, 1000} }
+              \cup { [Base EXCEPT !.country = LongOk(k), !.grp = "cli-sweep"] : k \in {1, 2, 3, 64, 128, 300} }
+AllCases == Cases \cup SweepCases
 Emit == IF TLCGet("stats").generated >= 0 /\ "CASES_OUT" \in DOMAIN IOEnv
-        THEN ndJsonSerialize(IOEnv.CASES_OUT, SetToSeq(Cases)) /\ PrintT(<<"CASES", Cardinality(Cases)>>)
+        THEN ndJsonSerialize(IOEnv.CASES_OUT, SetToSeq(AllCases)) /\ PrintT(<<"CASES", Cardinality(AllCases)>>)
         ELSE TRUE
 =============================================================================
